@@ -165,6 +165,78 @@ fn elf_batch(start: u32, count: usize) -> Result<(), String> {
     Ok(())
 }
 
+/// An ELF64 table with the given (raw type, flags) headers: the iterator yields
+/// exactly the in-use ones, in order, each classified as documented - whatever
+/// the flags and whatever the neighbouring headers are.
+fn elf_custom(entries: &[(u32, u64)]) -> Result<(), String> {
+    let count = entries.len();
+    let mut body = vec![0u8; 12 + 64 * count];
+    put32(&mut body, 0, count as u32);
+    put32(&mut body, 4, 64);
+    put32(&mut body, 8, 0);
+    for (e, (t, f)) in entries.iter().enumerate() {
+        put32(&mut body, 12 + 64 * e + 4, *t);
+        put64(&mut body, 12 + 64 * e + 8, *f);
+        put64(&mut body, 12 + 64 * e + 16, e as u64);
+    }
+    let mut img = mb2_model::encode::tag(9, &body);
+    mb2_model::encode::pad8(&mut img, 0);
+    let a = Aligned::new(&img);
+    let tag = multiboot2_common::DynSizedStructure::<m::TagHeader>::ref_from_slice(a.as_slice()).map_err(|e| format!("{e:?}"))?;
+    let tag = tag.cast::<m::ElfSectionsTag>();
+    let mut it = tag.sections();
+    for (e, (raw, f)) in entries.iter().enumerate() {
+        if elf_type_name(*raw) == "Unused" {
+            continue;
+        }
+        match it.next() {
+            Some(s) if s.start_address() == e as u64 && s.section_type_raw() == *raw => {
+                if s.section_type() as u32 != mb2_model::expect_mbi::elf_type_class(*raw) {
+                    return Err(format!("ELF raw type {raw:#x} with flags {f:#x} (header {e} of {count}) classified as {:?}, documented: {}", s.section_type(), elf_type_name(*raw)));
+                }
+            }
+            Some(s) => return Err(format!("header {e} (raw type {raw:#x}, flags {f:#x}, {}) expected next, the iterator yielded header {} with raw type {:#x}", elf_type_name(*raw), s.start_address(), s.section_type_raw())),
+            None => return Err(format!("header {e} (raw type {raw:#x}, flags {f:#x}) is in use ({}) but was skipped", elf_type_name(*raw))),
+        }
+    }
+    if let Some(s) = it.next() {
+        return Err(format!("the iterator yielded an unused header: index {} raw type {:#x} flags {:#x}", s.start_address(), s.section_type_raw(), s.flags().bits()));
+    }
+    Ok(())
+}
+
+/// Tables in which classification could depend on more than the raw type: every
+/// small raw type with every combination of the three flag bits, and for every
+/// in-use type k and every bit b the neighbours (k ^ 2^b, k) and (k, k ^ 2^b)
+/// at both parities of the header index.
+fn elf_contexts() -> Result<u64, String> {
+    let mut n = 0u64;
+    for flags in 0..8u64 {
+        for base in [0u32, 0x5FFF_FFF0, 0x6FFF_FFF0, 0x7FFF_FFF0] {
+            let entries: Vec<(u32, u64)> = (0..64).map(|i| (base.wrapping_add(i), flags | if i % 2 == 0 { 0 } else { 0xFFFF_FFFF_FFFF_FFF8 })).collect();
+            elf_custom(&entries)?;
+            n += 64;
+        }
+    }
+    let known: Vec<u32> = (1..=11).chain([0x6000_0000, 0x6FFF_FFFF, 0x7000_0000, 0x7FFF_FFFF]).collect();
+    for b in 0..32u32 {
+        let mut entries: Vec<(u32, u64)> = Vec::new();
+        for k in &known {
+            let u = k ^ (1 << b);
+            entries.extend([(u, 2), (*k, 2), (u, 6), (*k, 6)]);
+        }
+        // the same pairs shifted by one header
+        let mut shifted = vec![(0u32, 0u64)];
+        shifted.extend(entries.iter().cloned());
+        elf_custom(&entries)?;
+        elf_custom(&shifted)?;
+        let rev: Vec<(u32, u64)> = entries.iter().rev().cloned().collect();
+        elf_custom(&rev)?;
+        n += 3 * entries.len() as u64;
+    }
+    Ok(n)
+}
+
 /// `batches` consecutive ELF batches of 4096 raw values in a forked child, so
 /// that a fault while classifying (the property says classification is
 /// total) is a verdict about the library and not the end of the worker.
@@ -293,6 +365,25 @@ fn run(ctx: &Ctx, rep: &mut SubReport) {
             }
         }
     }
+    if ctx.worker == 2 % ctx.workers {
+        let r = mb2_sandbox::run_child(|| match mb2_model::panics::catch(elf_contexts) {
+            Some(Ok(n)) => format!("OK {n}").into_bytes(),
+            Some(Err(m)) => format!("E {m}").into_bytes(),
+            None => b"E ELF iteration panicked on a well-formed table".to_vec(),
+        });
+        match r {
+            mb2_sandbox::ChildResult::Done(b) if b.starts_with(b"OK ") => rep.evaluations += String::from_utf8_lossy(&b[3..]).parse::<u64>().unwrap_or(0),
+            mb2_sandbox::ChildResult::Done(b) => {
+                fail(rep, "elf-contexts", 0, String::from_utf8_lossy(&b[2.min(b.len())..]).into_owned());
+                return;
+            }
+            mb2_sandbox::ChildResult::Signal(sig) => {
+                fail(rep, "elf-contexts", 0, format!("classifying ELF headers crashed the process (signal {sig})"));
+                return;
+            }
+            _ => rep.inconclusive.push("elf-contexts: child did not report".into()),
+        }
+    }
     let full = ctx.tier == Tier::Thorough && profile_name() == "release";
     let mut check = |rep: &mut SubReport, v: u32, deep: bool| -> bool {
         match mb2_model::panics::catch(|| laws(v, deep)) {
@@ -403,6 +494,7 @@ fn replay(v: &Value) -> Result<(), String> {
         "laws" => mb2_model::panics::catch(|| laws(x, true)).unwrap_or_else(|| Err("panicked".into())),
         "elf" => elf_batches_in_child(x, 1, 4096).map_err(|e| e.1),
         "framebuffer" => mb2_model::panics::catch(framebuffer_all).unwrap_or_else(|| Err("panicked".into())),
+        "elf-contexts" => mb2_model::panics::catch(elf_contexts).unwrap_or_else(|| Err("panicked".into())).map(|_| ()),
         "framebuffer-mbi" => mb2_model::panics::catch(framebuffer_in_mbi).unwrap_or_else(|| Err("panicked".into())).map(|_| ()),
         _ => Ok(()),
     }
@@ -412,7 +504,7 @@ pub fn subs() -> Vec<Box<dyn Sub>> {
     vec![Box::new(LoopSub {
         name: "conversions",
         profiles: Profiles::Both,
-        rule: "for a 32-bit value v: u32->TagType->u32 identity, named iff v<=21 with the specification's names, Custom(v) otherwise; TagTypeId paths commute; == between u32/TagTypeId/TagType in all directions against v, v^1, v+1, 0, 21, 22 equals numeric equality; MemoryAreaType (1..=5 named) both directions and cross ==; ELF raw-type classification through crafted ELF64 tables of 4096 consecutive raw values (iterator yields exactly the in-use classes with the documented names); all 256 framebuffer type bytes on a stand-alone tag, and through the getter of a loaded boot information with 6 conventional framebuffer addresses (EGA text, VGA, PCI BARs) x 7 sets of other tags present (none, EFI system tables, EFI map + boot services, ...); both exported magics. Thorough/release: all 2^32 values (exhaustive); otherwise all v<2^16, 2^k+-16, class boundaries, 2^16 seeded samples, ELF batches at every class boundary + 200 sampled. Non-trivial = v > 21; distinct by v",
+        rule: "for a 32-bit value v: u32->TagType->u32 identity, named iff v<=21 with the specification's names, Custom(v) otherwise; TagTypeId paths commute; == between u32/TagTypeId/TagType in all directions against v, v^1, v+1, 0, 21, 22 equals numeric equality; MemoryAreaType (1..=5 named) both directions and cross ==; ELF raw-type classification through crafted ELF64 tables of 4096 consecutive raw values (iterator yields exactly the in-use classes with the documented names), and in context: every raw type 0..=63 and around each class boundary x all 8 combinations of the low flag bits (high flag bits all set in every second header), and for every in-use type k and every bit b the neighbouring headers (k ^ 2^b, k) in both orders and at both index parities; all 256 framebuffer type bytes on a stand-alone tag, and through the getter of a loaded boot information with 6 conventional framebuffer addresses (EGA text, VGA, PCI BARs) x 7 sets of other tags present (none, EFI system tables, EFI map + boot services, ...); both exported magics. Thorough/release: all 2^32 values (exhaustive); otherwise all v<2^16, 2^k+-16, class boundaries, 2^16 seeded samples, ELF batches at every class boundary + 200 sampled. Non-trivial = v > 21; distinct by v",
         run,
         replay,
     })]
